@@ -52,3 +52,34 @@ Definition check_orient_tmax (init : list St) (ok : bool) (out : list St) : Z :=
   | Ok f => if f_close f 0.5 then 100%Z else res_sts_eq (@tmax_fwd FNum init) ok out
   | _ => res_sts_eq (@tmax_fwd FNum init) ok out
   end.
+
+(* inscribed_from_spanning_ray (Model/Inscribed.v): the bisection replayed on the implementation's polyline; a step whose
+   decision (to_closest . dir > 0, or the loop test) is within rounding of its threshold makes the case ambiguous (100);
+   7: the model needs more than the fuel; 8: centre, radius or a contact differs *)
+From EG Require Import Model.Closest Model.Inscribed.
+Fixpoint bisect_amb (fuel : nat) (pts : list F2) (r : @sray FNum) (tol : float) (pos neg : @side FNum) : bool :=
+  match fuel with
+  | O => false
+  | S fuel' =>
+      let w := (s_frac pos - s_frac neg) * @norm2 FNum (sr_dir r) in
+      if f_close_tol 0x1p-40 w tol then true
+      else if tol <? w then
+        let fraction := (s_frac pos + s_frac neg) * 0x1p-1 in
+        let working := @ray_at FNum r fraction in
+        let cp := @closest_pt FNum pts working in
+        let d := @dot2 FNum (@sub2 FNum cp working) (sr_dir r) in
+        let distance := @dist2 FNum working cp in
+        if abs d <=? 0x1p-30 * (distance * @norm2 FNum (sr_dir r)) then true
+        else if 0 <? d then bisect_amb fuel' pts r tol (@mkSide FNum fraction distance cp) neg
+        else bisect_amb fuel' pts r tol pos (@mkSide FNum fraction distance cp)
+      else false
+  end.
+Definition check_inscribed (pts : list F2) (p0 p1 : F2) (tol : float) (c : F2) (rad : float) (cp cn : F2) : Z :=
+  let r := @mkSRay FNum p0 (@sub2 FNum p1 p0) in
+  if bisect_amb 200 pts r tol (@mkSide FNum 1 0 (@ray_at FNum r 1)) (@mkSide FNum 0 0 (@ray_at FNum r 0)) then 100%Z
+  else match @inscribed FNum 200 pts r tol with
+       | None => 7%Z
+       | Some (mc, mr, mp, mn) =>
+           let p29 := fun a b : F2 => f_close (fst a) (fst b) && f_close (snd a) (snd b) in
+           if p29 mc c && f_close mr rad && p29 mp cp && p29 mn cn then 0%Z else 8%Z
+       end.
